@@ -18,7 +18,13 @@
 
 
 import numpy as np
-from scipy.special import sph_harm
+try:
+    from scipy.special import sph_harm
+except ImportError:  # SciPy >= 1.17 removed sph_harm in favour of sph_harm_y
+    from scipy.special import sph_harm_y
+
+    def sph_harm(m, n, theta, phi):
+        return sph_harm_y(n, m, phi, theta)
 
 from soprano.properties import AtomsProperty
 from soprano.selection import AtomSelection
